@@ -113,9 +113,25 @@ def rule_stale_removal(ctx):
                             uses_cap = True
                 if p.ret == ('c', True) and not p.conds:
                     const_true = True
-            ok = uses_v and uses_cap and not const_true
+            # the rejection of an op's own candidate must compare the mapped value *itself* with the op's entry (an updated
+            # value shares the EntryInfo of the one it replaced: comparing EntryInfo would remove the newer value)
+            is_cand = nid.endswith('remove_candidate') or any(
+                a.get('k') in ('copy', 'move') and b.local_name(a['pl']['l']) in ('key',) for a in t['args'][1:2]) and not any(
+                'element' in str(x) for x in [t['args'][1]])
+            weak_identity = False
+            if is_cand:
+                for p in sx.run(clo):
+                    for tm in [p.ret] + [c for c, v in p.conds]:
+                        for x in subterms(tm):
+                            if isinstance(x, tuple) and x and x[0] == 'call' and str(x[1]).split('::')[-1] in ('eq', 'ptr_eq') and \
+                                    any(isinstance(y, tuple) and y and y[0] == 'fld' and y[2] == 'info' for a2 in x[2] for y in subterms(a2)):
+                                weak_identity = True
+            ok = uses_v and uses_cap and not const_true and not weak_identity
             r.instance(function=nid, call=ext, predicate=clo, depends_on_map_value=uses_v, depends_on_op_or_node=uses_cap, ok=ok)
-            if not ok:
+            if weak_identity:
+                r.violate(nid, 'candidate-identity', 'EntryInfo', 'the rejected-candidate removal in %s compares the shared EntryInfo instead of the value entry itself: a queued update of the same '
+                          'key (same EntryInfo, newer value) is removed by the stale op' % nid, where=ctx.where(nid, t.get('line')), expected='remove_if(key, |_, v| TrioArc::ptr_eq(v, entry))')
+            elif not ok:
                 r.violate(nid, 'removal-predicate', clo.split('::')[-1], 'the remove_if predicate %s does not tie the removal to the entry the op / node '
                           'belongs to (uses map value: %s, uses op/node: %s)' % (clo, uses_v, uses_cap), where=ctx.where(nid, t.get('line')))
     r.require_floor(5, 'map removal sites in maintenance')
@@ -217,4 +233,44 @@ def rule_must_drain(ctx):
                         kind, [fmt(c)[:50] + '==' + str(v) for c, v in p.conds][:6]), where=ctx.where(m),
                         expected='if %s.len() > 0 { apply }  -- unconditionally' % chan)
     r.require_floor(2, 'paths with a non-empty queue')
+    return r
+
+
+def rule_auth_ts_writers(ctx):
+    r = RuleResult('AUTH-ts-writers', 'the last-accessed / last-modified stores are written only on behalf of a use: by insert (new entry / update closure), and by the read-op '
+                   'consumer for a received Hit; the write-op consumer, admission, eviction and expiry never write them (unsync: only insert / get paths)')
+    prog, eff = ctx.prog, ctx.eff
+    R = get_roles(ctx)
+    EI = 'common::concurrent::entry_info::EntryInfo'
+    n = 0
+    if ctx.has_sync:
+        writers = {x for x in prog.bodies if any(('write', EI, f) in eff.direct.get(x, ()) for f in ('last_accessed', 'last_modified'))}
+        maint = _maintenance_fns(ctx)
+        read_cons = {x for x in maint if prog.bodies[x].kind != 'closure' and any('ReadOp' in t.get('self_ty', {}).get('s', '') for _, t in prog.bodies[x].calls()
+                                                                                   if prog.call_targets(prog.bodies[x], t)[1] == 'crossbeam_channel::Receiver::try_recv')}
+        for fn in sorted(maint):
+            if fn in read_cons or fn in R.maintenance or prog.bodies[fn].kind == 'closure':
+                continue
+            if prog.reachable_from([fn]) & read_cons:
+                continue
+            reach = prog.reachable_from([fn]) & writers
+            n += 1
+            if reach:
+                r.instance(function=fn, reaches_timestamp_writer=sorted(reach))
+                path = prog.call_path(fn, lambda y: y in writers)
+                r.violate(fn, 'timestamp-written-by-maintenance', sorted(reach)[0].split('::')[-1], 'maintenance function %s can write an entry\'s last-accessed / last-modified time (%s): only a use '
+                          '(insert, update, applied get hit) may move these' % (fn, ' -> '.join(x.split('::')[-1] for x in (path or [fn]))), where=ctx.where(fn), path=path)
+        r.instance(sync_maintenance_functions_checked=n, allowed_writer=sorted(read_cons))
+    # unsync: timestamp fields are written by the AccessTime setters; who calls them
+    uw = {x for x in prog.bodies if any(('write', a, 'timestamp') in eff.direct.get(x, ()) for a in ('unsync::KeyDate', 'unsync::KeyHashDate'))}
+    for pub in prog.public_api():
+        if not pub.startswith(('unsync::cache::Cache::', '<unsync::')):
+            continue
+        if prog.reachable_from([pub]) & uw:
+            ok = pub in ('unsync::cache::Cache::insert', 'unsync::cache::Cache::get')
+            n += 1
+            r.instance(public_entry=pub, writes_timestamps=True, allowed=ok)
+            if not ok:
+                r.violate(pub, 'timestamp-written', 'timestamp', 'public entry %s can write entry timestamps' % pub, where=ctx.where(pub))
+    r.require_floor(3, 'functions / entries checked')
     return r
